@@ -689,7 +689,56 @@ fn c03(r: &Runner) {
                 exec(l, bits, op, &args);
             }
         });
+        let gc = golden_div_cases(bits, if r.is_thorough() { 48 } else { 20 });
+        r.universe(&format!("n=q*d+r with q, d assembled from the structureless alphabet G ({} cases)", gc.len()), bits, gc.len(), |i, l| {
+            let args = [vu(&gc[i].0), vu(&gc[i].1)];
+            l.states(1);
+            for &op in C03_CORE {
+                exec(l, bits, op, &args);
+            }
+        });
     }
+}
+
+/// structureless operands: n = q*d + r with q, d assembled from the G alphabet (exact multiples whose
+/// quotient-digit estimate is off by one exist only for operands without special bit structure)
+fn golden_div_cases(bits: usize, k: usize) -> Vec<(Limbs, Limbs)> {
+    let g = golden(k * 8 + 16);
+    let nl = nlimbs(bits);
+    let m = pow2(bits);
+    let mut out = vec![];
+    for dl in 1..=nl {
+        for dv in 0..k {
+            let mut d: Limbs = (0..dl).map(|i| g[(dv * 3 + i) % g.len()]).collect();
+            if dv % 2 == 0 {
+                d[dl - 1] |= 1 << 63;
+            } else if dv % 3 == 0 {
+                d[dl - 1] >>= 17;
+            }
+            let bd = big(&d);
+            if bd.is_zero() {
+                continue;
+            }
+            for ql in 1..=(nl + 1 - dl).max(1) {
+                for qv in 0..k {
+                    let q: Limbs = (0..ql).map(|i| g[(qv * 5 + i + 7) % g.len()]).collect();
+                    let bq = big(&q);
+                    for rr in [BigUint::zero(), BigUint::one(), &bd - 1u32] {
+                        if rr >= bd {
+                            continue;
+                        }
+                        let n = &bq * &bd + rr;
+                        if n < m {
+                            out.push((to_limbs(&n, bits), to_limbs(&bd, bits)));
+                        }
+                    }
+                }
+            }
+        }
+    }
+    out.sort();
+    out.dedup();
+    out
 }
 
 fn pprime(bits: usize) -> Vec<Limbs> {
